@@ -31,7 +31,7 @@ MAX_INCONCLUSIVE = 0.4
 def strategy(ctx):
     rng = ctx.rng("c02-pool")
     size = 3 if ctx.tier == "quick" else 6  # thorough: many rounds of fresh worker processes, each with its own small pool
-    pool = [ssmcase.draw_structure(rng) for _ in range(size)]
+    pool = [ssmcase.draw_structure(rng, lins=("ts0", "ts1", "ts1", "residual")) for _ in range(size)]
     # exponential priors (integrated Ornstein-Uhlenbeck, Matern) exist for the dense model
     cfg = ssmcase.draw_structure(rng, facts=("dense",), nmax=4, dmax=2, inits=("exact", "inexact"), steps=(2, 4))
     cfg["prior"] = str(rng.choice(["ou", "matern"]))
